@@ -218,11 +218,18 @@ def run1 : List String → String
     let (out, reuse) := mergeSlices (lessOf (intOr c) (intOr rev)) popFirstMin (max 0 (intOr outCap)) (parseLL ll)  -- -1 = nil out
     s!"keys={showList (out.map (keyOf (intOr c)))} sorted={showList (sortInts out)} reuse={b2s reuse}"
   | ["mink", c, rev, k, l] =>
-    let out := minK (lessOf (intOr c) (intOr rev)) popFirstMin (parseList l) (intOr k)
-    s!"keys={showList (out.map (keyOf (intOr c)))}"
+    match minK 0 (lessOf (intOr c) (intOr rev)) popFirstMin (parseList l) (intOr k) with
+    | none => "panic"
+    | some out => s!"keys={showList (out.map (keyOf (intOr c)))}"
   | ["union", ll] => showList (sortInts (setUnion (parseLL ll)))
-  | ["intersection", ll] => showList (sortInts (setIntersection (parseLL ll)))
-  | ["intersects", ll] => b2s (setIntersects (parseLL ll))
+  | ["intersection", ll] =>
+    match setIntersection (parseLL ll) with
+    | none => "panic"
+    | some r => showList (sortInts r)
+  | ["intersects", ll] =>
+    match setIntersects (parseLL ll) with
+    | none => "panic"
+    | some b => b2s b
   | ["difference", a, b] => showList (sortInts (setDifference (parseList a) (parseList b)))
   | ["mapreverse", ks, vs] =>
     let m := (parseList ks).zip (parseList vs)
